@@ -130,7 +130,7 @@ partial def sflOracle (dflt : Aff) (init : Option Status) (rows : List (Tx × Im
              | none => if rabs e.loss ≤ 1 / pow10 9 then [] else
                 [("C02", s!"row {i}: the rule denies {ratToString e.loss} ({ratToString e.num}/{ratToString e.den}), implementation reports no superficial loss")]
              | some s =>
-               if !close s.loss e.loss then [("C02", s!"row {i}: superficial loss {ratToString s.loss}, the rule says {ratToString e.loss}")]
+               if !closeAt (rabs (x.pre.acb.getD 0)) s.loss e.loss then [("C02", s!"row {i}: superficial loss {ratToString s.loss}, the rule says {ratToString e.loss}")]
                else if !close (s.num / s.den) (e.num / e.den) then [("C02", s!"row {i}: ratio {ratToString s.num}/{ratToString s.den}, the rule says {ratToString e.num}/{ratToString e.den}")]
                else [])
           | none => []
